@@ -198,6 +198,17 @@ template <class P> struct Battery {
         Rot Rb; Rb.setRotationToNaN(); Rb.setRotationFromQuaternion(q1);
         k.sameM("fwd", "setRotationFromQuaternion", toM(Rb), Rref, k.tol);
 
+        // quaternion -> angle-axis describes the same rotation, also for non-canonical (q0 < 0) quaternions
+        {
+            const Vec4P aq = q1.convertQuaternionToAngleAxis();
+            const V3 axq = rr::mk(aq[1], aq[2], aq[3]);
+            k.num(k.key("rt-angle", "quatToAngleAxis.axisNorm"), fabsl(rr::norm(axq) - 1), k.tol, [&] { return k.wit().set("axis", rr::jV(axq)); });
+            k.req(k.key("rt-angle", "quatToAngleAxis.range"), aq[0] > -NTraits<P>::getPi() && aq[0] <= NTraits<P>::getPi(),
+                  [&] { return k.wit().set("angle", (double)aq[0]); });
+            const V3 gotq = (LD)aq[0] * axq, wantq = rr::logSO3(Rref);
+            k.num(k.key("rt-angle", qv[0] < 0 ? "quatToAngleAxis.negativeScalarPart" : "quatToAngleAxis"), rotVecResid(gotq, wantq), 4 * k.tol, [&] { return k.witV(gotq, wantq); });
+        }
+
         // extraction: canonical, unit, equal up to the documented sign convention
         auto extracted = [&](const char* api, const Quat& q, const M3& of) {
             LD want[4]; rr::toQuat(of, want);
